@@ -192,3 +192,17 @@ Theorem C09_udp_datagram_length : forall (seal : list N -> list N -> list N -> l
    (match payload with [] => 0 | _ => length payload + N.to_nat TagOverhead end) + length pad2)%nat.
 Proof. exact udp_datagram_length. Qed.
 Print Assumptions C09_udp_datagram_length.
+
+(* ---- the SOURCE of the protocol type predicates as it is now (gen/Translated.v: translated from
+   pkg/protocol/metadata.go by harness/cmd/go2coq on every run, semantics of base/MiniGo.v; protocolType is a uint8
+   carried as Z) equals the predicates of model/Wire.v, for every protocol number ---- *)
+From M Require Import base.MiniGo gen.Translated proofs.TranslatedWireProofs.
+
+Theorem C09_source_protocol_predicates : forall p : N,
+  xl_protocol_isSessionProtocol (Z.of_N p) = is_session p /\
+  xl_protocol_isDataProtocol (Z.of_N p) = is_data p /\
+  xl_protocol_isAckProtocol (Z.of_N p) = is_ack p /\
+  xl_protocol_isDataAckProtocol (Z.of_N p) = is_data_ack p /\
+  xl_protocol_isLowEntropyProtocol (Z.of_N p) = is_low_entropy p.
+Proof. exact xl_protocol_predicates_eq_model. Qed.
+Print Assumptions C09_source_protocol_predicates.
